@@ -3,5 +3,9 @@
      Gen/TieShares.v  Ledger.Ledger (C01, C03) and C05: TokensFromShares / SharesFromTokens
      Gen/TieUsd.v     C04, C05: CalculateUSDValue; C04: SlashFromUndelegation
      Gen/TieGas.v     C19: GasToRefund
-     Gen/TieOracle.v  Oracle (C12, C13), C14: ExceedsThreshold *)
-From Exo Require Export Gen.TieShares Gen.TieUsd Gen.TieGas Gen.TieOracle.
+     Gen/TieOracle.v  Oracle (C12, C13), C14: ExceedsThreshold
+     Gen/TieEpochs.v  C15: decision part of the BeginBlocker closure = tick
+     Gen/TieValset.v  C06: SortByPower comparator = cand_less
+     Gen/TieSlash.v   C04: slash proportion of SlashAssets = proportion
+     Gen/TieFees.v    C17: validator / staker reward arithmetic of x/feedistribution *)
+From Exo Require Export Gen.TieShares Gen.TieUsd Gen.TieGas Gen.TieOracle Gen.TieEpochs Gen.TieValset Gen.TieSlash Gen.TieFees.
